@@ -1644,6 +1644,8 @@ config_setting_t *config_setting_add(config_setting_t *parent,
     if(! __config_validate_name(name))
       return(NULL);
   }
+  else if(parent->type == CONFIG_TYPE_GROUP)
+    return(NULL); /* members of a group must have a name */
 
   if(config_setting_get_member(parent, name) != NULL)
   {
